@@ -240,7 +240,8 @@ def main(argv=None):
 
         # ---- inconclusive?
         inconclusive = []
-        if failed and len(failed) * 4 > len(jobs):
+        if failed:
+            # a worker that died took its share of the workload with it: never report "held" on a partial run
             inconclusive.append("%d/%d workers failed: %s" % (len(failed), len(jobs), failed[0][:2]))
         distinct = len(agg["judged"])
         if distinct < 2:
